@@ -92,6 +92,14 @@ struct KeystoneContainer {   // entities/keystone_container.hpp: the two data me
   size_t estimateSize() const;
 #include "slices/ksc_eq.inc"
 };
+bool DeserializeFromVbkEncoding(ReadStream& stream, KeystoneContainer& container, ValidationState& state);
+struct ContextInfoContainer {   // entities/context_info_container.hpp: the two data members
+  int32_t height;
+  KeystoneContainer keystones;
+  ContextInfoContainer() : height(0) {}
+  void toVbkEncoding(WriteStream& w) const;
+  size_t estimateSize() const;
+};
 #include "slices/generic_DeserializeFromRaw.inc"
 #include "slices/btc_toRaw.inc"
 #include "slices/btc_toVbkEncoding.inc"
@@ -107,6 +115,11 @@ struct KeystoneContainer {   // entities/keystone_container.hpp: the two data me
 #include "slices/pub_Deserialize.inc"
 #include "slices/ksc_toVbkEncoding.inc"
 #include "slices/ksc_estimateSize.inc"
+#include "slices/readSingleByteLenValue_vec.inc"
+#include "slices/ksc_Deserialize.inc"
+#include "slices/ctxinfo_toVbkEncoding.inc"
+#include "slices/ctxinfo_estimateSize.inc"
+#include "slices/ctxinfo_Deserialize.inc"
 #include "slices/vbk_toRaw.inc"
 #include "slices/vbk_toVbkEncoding.inc"
 #include "slices/vbk_estimateSize.inc"
